@@ -129,6 +129,7 @@ def mon_conn(ops, impl):
     slots = []       # slot index -> stream id
     budget_open = True
     alive = False
+    role, reset_max = "client", "-"
     for i, (o, a) in enumerate(zip(ops, impl)):
         w = o.split(" ")
         if w[0] == "cn_new":
@@ -141,9 +142,17 @@ def mon_conn(ops, impl):
             slots = []
             budget_open = True
             alive = True
+            role = w[1]
+            reset_max = "-"
+            for kv in w[2:]:
+                if kv.startswith("reset_max="):
+                    reset_max = kv[10:]
         if not w[0].startswith("cn_") or not alive:
             continue
         r = _f(a, "r=")
+        st = _f(a, "st=")
+        if st not in ("-", "gone", ""):
+            out.append((i, f"mon_st {role} {reset_max} {st}"))
         if w[0] == "cn_peer":
             rx = _f(a, "rx=")
             cbh = _f(a, "cbh=")
@@ -378,4 +387,16 @@ PROPS["C03"] = conn_prop(
 PROPS["C04"] = conn_prop(
     ["H2V.Props.CompBase"] + (["H2V.Props.C04"] if _load_theorems("C04") else []),
     _cb(["C04.state_machine_refines_rfc"]) + _load_theorems("C04"),
+    CONN_PROFILES, assumptions=CONN_ASSUMPTIONS)
+PROPS["C05"] = conn_prop(
+    ["H2V.Props.CompBase"] + (["H2V.Props.C05"] if _load_theorems("C05") else []),
+    _cb(["C05.can_inc_iff", "C05.apply_remote_settings"]) + _load_theorems("C05"),
+    CONN_PROFILES, assumptions=CONN_ASSUMPTIONS)
+PROPS["C16"] = conn_prop(
+    ["H2V.Props.CompBase"] + (["H2V.Props.C16"] if _load_theorems("C16") else []),
+    _cb(["C16.assign_claim_exact", "C02.send_data_within_window", "C02.window_ledger"]) + _load_theorems("C16"),
+    CONN_PROFILES, assumptions=CONN_ASSUMPTIONS)
+PROPS["C18"] = conn_prop(
+    ["H2V.Props.CompBase"] + (["H2V.Props.C18"] if _load_theorems("C18") else []),
+    _cb(["C18.reset_quota", "C18.local_error_reset_quota", "C18.tiny_data_costs"]) + _load_theorems("C18"),
     CONN_PROFILES, assumptions=CONN_ASSUMPTIONS)
